@@ -1,1 +1,33 @@
-// Kani harnesses mounted into the crate module that owns the items under test (see MANIFEST.hooks)
+// Kani harnesses for utils.rs (crate-private items: child module of the owner)
+#![allow(unused_imports, dead_code)]
+use super::*;
+use crate::verif_kani_lib_level::stub_format;
+
+/// C03: bounded bytes: <= 64 bytes => ONE definite byte string with the shortest head; > 64 => 0x5f, 64-byte definite chunks (last one
+/// shorter, never empty), 0xff.  BOUNDED by input length <= 130 (covers 0, 23/24, 64/65, 128/129: up to three chunks).
+#[kani::proof]
+#[kani::unwind(140)]
+fn bounded_bytes_layout_len130() {
+    let buf = [0u8; 130];
+    let len: usize = kani::any();
+    kani::assume(len <= 130);
+    let mut se = cbor_event::se::Serializer::new_vec();
+    match write_bounded_bytes(&mut se, &buf[..len]) { Ok(_) => {}, Err(_) => { assert!(false); return; } }
+    let out = se.finalize();
+    if len <= 64 {
+        let head = if len <= 23 { 1 } else { 2 };
+        assert!(out.len() == head + len);
+        if len <= 23 { assert!(out[0] == 0x40 + len as u8); } else { assert!(out[0] == 0x58 && out[1] == len as u8); }
+    } else {
+        let full = len / 64;
+        let last = len % 64;
+        let nchunks = full + if last > 0 { 1 } else { 0 };
+        // every full chunk: 0x58 0x40 + 64 bytes; last chunk: shortest head + bytes
+        let last_sz = if last == 0 { 0 } else if last <= 23 { 1 + last } else { 2 + last };
+        assert!(out.len() == 1 + full * 66 + last_sz + 1);
+        assert!(out[0] == 0x5f);
+        assert!(out[out.len() - 1] == 0xff);
+        assert!(out[1] == 0x58 && out[2] == 0x40);
+        assert!(nchunks >= 2);
+    }
+}
